@@ -46,6 +46,12 @@ def _cands(iv):
     for a, b in zip(iv[:-1], iv[1:]):
         if a[1] < b[0]:
             c.add((a[1] + b[0]) / 2)
+    # a hair before / after the first start and the last end (2^-30 ~ 1e-9 s and 2^-17 ~ 8e-6 s: still exact on the lattice, but closer
+    # than np.isclose's default tolerance): "almost equal" must not be treated as equal
+    for eps in (2.0 ** -30, 2.0 ** -17):
+        c |= {hi + eps, hi - eps, lo + eps}
+        if lo - eps >= 0:
+            c.add(lo - eps)
     return sorted(c)
 
 
@@ -140,6 +146,8 @@ def pred_adjust_intervals(case, ctx):
         ctx.event("crop_inside_interval")
     if tmin is not None and tmin >= in_hi or tmax is not None and tmax <= in_lo:
         ctx.event("all_outside")
+    if any(t is not None and 0 < abs(t - b) < 1e-5 for t in (tmin, tmax) for b in (in_lo, in_hi)):
+        ctx.event("crop_point_a_hair_off_the_span")
     return onb or inside
 
 
